@@ -25,7 +25,6 @@ PROPS = {
             "BitIter::read_u2": ["c13_reader_ops_bounded"],
             "BitIter::read_u8": ["c13_reader_ops_bounded", "c13_read_cmr_complete"],
             "BitIter::close": ["c13_reader_ops_bounded", "c13_window_close_bounded"],
-            "BitIter::byte_slice_window": ["c13_byte_slice_window_exact_cex"],
         },
         "level": "proof",
         "level_text": "Unbounded deductive proof (Verus) of functional contracts on the real BitIter / BitWriter / encode_natural code, "
